@@ -275,9 +275,8 @@ def report(tag, cases, mismatches, samples, extra_summary, json_path, t0, compil
     if mismatches or bad_cp:
         print("%s FAIL mismatches=%d compile_probe_failures=%d cases=%d wall_s=%s" % (
             tag, len(mismatches), len(bad_cp), len(cases), wall))
-        if mismatches:
-            m = mismatches[0]
-            print("first mismatching case: id=%s name=%s" % (m["id"], m["name"]))
+        for n, m in enumerate(mismatches[:2]):
+            print("%s mismatching case: id=%s name=%s" % ("first" if n == 0 else "next", m["id"], m["name"]))
             if m.get("rust_type"):
                 print("  rust type : %s" % m["rust_type"])
             if m.get("model_term"):
